@@ -129,6 +129,11 @@ impl Database {
         let had_frames = current_offset > 0;
 
         if had_frames {
+            // the log is the only durable copy of these pages until the data files
+            // themselves are synced: do that before the frames are discarded
+            file_manager
+                .sync_all()
+                .wrap_err("failed to sync data files before truncating the WAL")?;
             wal.truncate()?;
         }
 
@@ -146,6 +151,11 @@ impl Database {
         self.abort_active_transaction();
 
         let _ = self.checkpoint();
+
+        // a closed database skips the sync in Drop: make the data files durable here
+        if let Some(file_manager) = self.shared.file_manager.write().as_mut() {
+            let _ = file_manager.sync_all();
+        }
 
         self.shared
             .closed
